@@ -308,6 +308,15 @@ def r15_io_error_guards(body, log, io_variant='Io'):
     return body
 
 
+def r13p_clone_from(body, log):
+    pat = re.compile(r'(?m)^([ \t]*)([\w.]+)\.clone_from\(([\w.&]+)\);')
+    n = len(pat.findall(body))
+    if n:
+        body = pat.sub(r'\1\2 = \3.clone();', body)
+        log.append(f"R13' `x.clone_from(y);` -> `x = y.clone();` ({n}x)")
+    return body
+
+
 def r18_vec_set(body, log):
     pat = re.compile(r'(?m)^([ \t]*)(' + PATH + r')\[([^\]\n]+)\] = ([^;\n]+);')
     n = len(pat.findall(body))
@@ -512,6 +521,8 @@ def extract_fn(repo, fnspec):
         body = r13_option_combinators(body, log, with_map='R13m' in rules)
     if 'R15' in rules:
         body = r15_io_error_guards(body, log)
+    if 'R13p' in rules:
+        body = r13p_clone_from(body, log)
     if 'R18' in rules:
         body = r18_vec_set(body, log)
     for d in fnspec.get('directives', []):
